@@ -1,5 +1,5 @@
 """property id -> rules"""
-from rules import task_constraints, tasks, optional
+from rules import task_constraints, tasks, optional, logic
 from sa.selftest import self_test_rule
 
 NOTES = ("Every check decides structural clauses (necessary conditions) of its property from /repo's source as parsed on "
@@ -8,6 +8,21 @@ NOTES = ("Every check decides structural clauses (necessary conditions) of its p
 NOT_APPLICABLE = {}
 
 PROPERTIES = {
+    "C10": {
+        "rules": logic.RULES,
+        "thorough": [self_test_rule("C10")],
+        "level_text": "For each of the six connectives and each kind of operand (raw z3 expression or Constraint) the single "
+                      "formula handed to the sink is reconstructed and decided equal to the documented boolean combination of "
+                      "the operands' own meanings (an operand = the conjunction of its assertion list); every Constraint "
+                      "operand is shown to be tagged so that the solver does not also enforce it alone, and the solver's drain "
+                      "filter is shown to be exactly that tag. For all 30+ Constraint subclasses the optional variant is shown "
+                      "to be Implies(applied flag, mandatory variant) and no assertion bypasses that route.",
+        "level_note": "Nesting depth is irrelevant to the argument: an operand is an opaque assertion list to each connective. "
+                      "Trusted: z3 semantics of And/Or/Not/Xor/Implies/If and PbGe/PbLe/PbEq.",
+        "explanation": "Static analysis of first_order_logic.py / constraint.py / solver.py: per connective and operand kind "
+                       "the emitted formula vs the documented combination (normal forms, truth tables over operand "
+                       "placeholders); tagging must-pass-through; optional/mandatory path pairing for every constraint class.",
+    },
     "C06": {
         "rules": optional.RULES,
         "thorough": [self_test_rule("C06")],
